@@ -1,6 +1,6 @@
 (* The six instances of the sync law and the per-format round-trip theorems. *)
 From Coq Require Import NArith Bool List Arith Lia.
-From IE Require Import Lib.Tbl Lib.Bits Gen.Codepage Gen.TextFmt Model.Attr Model.TextBuf Model.TextWriters Model.TextParsers
+From IE Require Import Lib.Tbl Lib.Bits Lib.C15Lib Gen.Codepage Gen.TextFmt Model.Attr Model.TextBuf Model.TextWriters Model.TextParsers
                        Proofs.TextBufProofs Proofs.TextSync Proofs.TextRoundtrip.
 Import ListNotations.
 Local Open Scope N_scope.
@@ -273,4 +273,249 @@ Proof.
               _ eq_refl eq_refl eq_refl _ Hd Hl Hbody).
     + destruct pr; reflexivity.
     + split; [reflexivity|]. split; [split; reflexivity|]. cbn [fst]. discriminate.
+Qed.
+
+(* ================= Renegade ================= *)
+Definition ren_char (ch : N) : bool := ansi_char ch && negb (ch =? 124).
+Definition ren_dom (c : cell) : Prop := ren_char (cch c) = true /\ colour_dom c.
+Definition ren_R (last : TextAttribute) (ps : ren_ps) (a : TextAttribute) : Prop :=
+  ps = RNormal /\ agood a /\ foreground_color last = foreground_color a /\ background_color last = background_color a.
+
+Lemma arun_app PS astep bs1 bs2 : forall ps a,
+  arun PS astep ps a (bs1 ++ bs2) =
+  match arun PS astep ps a bs1 with Some (ps', a') => arun PS astep ps' a' bs2 | None => None end.
+Proof.
+  induction bs1 as [|ch t IH]; intros ps a; [reflexivity|].
+  cbn [app arun]. destruct (astep ps a ch) as [[ps' a']|]; [apply IH|reflexivity].
+Qed.
+
+Lemma ren_fg_code a f : f < 16 ->
+  arun ren_ps ren_astep RNormal a (124 :: fmt02 f) = Some (RNormal, with_fg a f).
+Proof.
+  intro H.
+  assert (E : f = 0 \/ f = 1 \/ f = 2 \/ f = 3 \/ f = 4 \/ f = 5 \/ f = 6 \/ f = 7 \/ f = 8 \/ f = 9 \/ f = 10 \/
+              f = 11 \/ f = 12 \/ f = 13 \/ f = 14 \/ f = 15) by lia.
+  repeat (destruct E as [E|E]; [subst f; reflexivity|]). subst f; reflexivity.
+Qed.
+
+Lemma ren_bg_code a g : g < 8 ->
+  arun ren_ps ren_astep RNormal a (124 :: fmt02 (16 + g)) = Some (RNormal, with_bg a g).
+Proof.
+  intro H.
+  assert (E : g = 0 \/ g = 1 \/ g = 2 \/ g = 3 \/ g = 4 \/ g = 5 \/ g = 6 \/ g = 7) by lia.
+  repeat (destruct E as [E|E]; [subst g; reflexivity|]). subst g; reflexivity.
+Qed.
+
+Lemma ren_char_step w p ch : ren_char ch = true ->
+  step ren_ps ren_astep (ren_bstep w) RNormal p ch = Some (RNormal, print_char w p (mkCell ch (pattr p))).
+Proof.
+  intro H. apply andb_prop in H as (Ha & Hn). unfold step, ren_astep, ren_bstep.
+  destruct (ch =? 124); [discriminate|]. rewrite (ansi_print_char w p ch Ha). reflexivity.
+Qed.
+
+Lemma agood_with_fg a f : agood a -> agood (with_fg a f).
+Proof. intros (A & B). split; assumption. Qed.
+Lemma agood_with_bg a g : agood a -> agood (with_bg a g).
+Proof. intros (A & B). split; assumption. Qed.
+
+Lemma ren_cell_sync w : cell_sync w ren_ps TextAttribute ren_astep (ren_bstep w) ren_R colour_rel ren_emit ren_dom.
+Proof.
+  intros last ps p c bs ws' (Hps & Hag & Hlf & Hlb) (Hch & Hf & Hg & Ha) Hem. subst ps.
+  assert (Hansi : ansi_char (cch c) = true) by (apply andb_prop in Hch as (A & _); exact A).
+  unfold ren_emit, ren_code in Hem. rewrite (out_ch_ansi c Hansi) in Hem.
+  replace (4294967296 <=? 16 + background_color (cat c)) with false in Hem by (symmetry; apply N.leb_gt; lia).
+  destruct (negb (attr_eqb (cat c) last)) eqn:Ec.
+  - pose proof (f_equal (fun o => match o with Some (x, _) => x | None => [] end) Hem) as Hbs.
+    pose proof (f_equal (fun o => match o with Some (_, y) => y | None => last end) Hem) as Hws.
+    cbv beta iota in Hbs, Hws. subst bs ws'. clear Hem.
+    set (a := pattr p) in *.
+    set (a1 := if negb (foreground_color (cat c) =? foreground_color last) then with_fg a (foreground_color (cat c)) else a).
+    set (a2 := if negb (background_color (cat c) =? background_color last) then with_bg a1 (background_color (cat c)) else a1).
+    assert (Hrun : arun ren_ps ren_astep RNormal a
+                     ((if negb (foreground_color (cat c) =? foreground_color last) then 124 :: fmt02 (foreground_color (cat c)) else []) ++
+                      (if negb (background_color (cat c) =? background_color last) then 124 :: fmt02 (16 + background_color (cat c)) else []))
+                   = Some (RNormal, a2)).
+    { rewrite arun_app. unfold a2, a1.
+      destruct (negb (foreground_color (cat c) =? foreground_color last)).
+      - rewrite (ren_fg_code a _ Hf). destruct (negb (background_color (cat c) =? background_color last)).
+        + apply ren_bg_code. exact Hg.
+        + reflexivity.
+      - cbn [arun]. destruct (negb (background_color (cat c) =? background_color last)).
+        + apply ren_bg_code. exact Hg.
+        + reflexivity. }
+    assert (Hfg : foreground_color a2 = foreground_color (cat c)).
+    { unfold a2, a1. destruct (N.eqb_spec (foreground_color (cat c)) (foreground_color last)) as [E|E];
+        destruct (negb (background_color (cat c) =? background_color last)); cbn; congruence. }
+    assert (Hbg : background_color a2 = background_color (cat c)).
+    { unfold a2, a1. destruct (N.eqb_spec (background_color (cat c)) (background_color last)) as [E|E];
+        destruct (negb (foreground_color (cat c) =? foreground_color last)); cbn; congruence. }
+    assert (Hag2 : agood a2).
+    { unfold a2, a1. destruct (negb (foreground_color (cat c) =? foreground_color last));
+        destruct (negb (background_color (cat c) =? background_color last));
+        repeat (apply agood_with_bg || apply agood_with_fg); exact Hag. }
+    exists RNormal, (mkCell (cch c) a2). split; [|split; [|split]].
+    + rewrite (run_code_then ren_ps ren_astep (ren_bstep w) _ (cch c) RNormal p RNormal a2 _ Hrun (ren_char_step w _ (cch c) Hch)).
+      reflexivity.
+    + split; [reflexivity|]. split; [exact Hag2|]. cbn [cat]. split; congruence.
+    + split; [reflexivity|]. split; assumption.
+    + apply agood_cell, Hag2.
+  - apply negb_false_iff in Ec. destruct (attr_eqb_true _ _ Ec) as (A1 & A2 & A3).
+    inversion Hem; subst; clear Hem.
+    exists RNormal, (mkCell (cch c) (pattr p)). split; [|split; [|split]].
+    + cbn [run app]. rewrite (ren_char_step w p (cch c) Hch). unfold put. cbn [cat]. rewrite set_attr_same. reflexivity.
+    + split; [reflexivity|]. split; [exact Hag|]. cbn [cat]. split; assumption.
+    + split; [reflexivity|]. cbn [cat]. split; congruence.
+    + apply agood_cell, Hag.
+Qed.
+
+Lemma ren_eol_sync w : eol_sync ren_ps TextAttribute ren_astep (ren_bstep w) EOL_CRLF ren_R.
+Proof. intros ws ps p (Hps & _). subst ps. reflexivity. Qed.
+
+Lemma ren_total ws c : ren_dom c -> exists r, ren_emit ws c = Some r.
+Proof.
+  intros (_ & Hf & Hg & _). unfold ren_emit, ren_code.
+  replace (4294967296 <=? 16 + background_color (cat c)) with false by (symmetry; apply N.leb_gt; lia).
+  destruct (negb (attr_eqb (cat c) ws)); eauto.
+Qed.
+
+Lemma default_agood : agood default_attribute.
+Proof. split; reflexivity. Qed.
+
+Theorem ren_roundtrip_proof : forall pr b,
+  dom_rows 80 ren_dom b -> nonempty_last 80 b ->
+  exists bytes, write REN pr 80 b = WOk bytes /\
+    (sauce_gate bytes = false -> bom_gate bytes = false ->
+     exists q, load REN bytes = Loaded q /\ picture 80 colour_rel b q).
+Proof.
+  intros pr b Hd Hl.
+  destruct (rows_loop_total _ (cellwise _ ren_emit 80) EOL_CRLF 80 _
+              (cellwise_total _ ren_emit ren_dom 80 ren_total) b (length b) default_attribute 0%nat Hd) as (body & Hbody).
+  exists (prep_bytes REN pr ++ body). split.
+  - unfold write, write_body. rewrite Hbody. reflexivity.
+  - intros Hs Hb. unfold load. rewrite Hs, Hb.
+    assert (Hp : prep_bytes REN pr = []) by (destruct pr; reflexivity). rewrite Hp in *. cbn [app].
+    unfold parse. change (load_width REN) with 80%nat.
+    refine (assemble 80 ltac:(lia) _ _ ren_astep (ren_bstep 80) (cellwise _ ren_emit 80) EOL_CRLF ren_R _ colour_rel
+              (cellwise_row_sync 80 _ _ ren_astep (ren_bstep 80) ren_R colour_rel ren_emit ren_dom (ren_cell_sync 80))
+              (ren_eol_sync 80) default_attribute RNormal (page0 REN) [] RNormal (page0 REN) b body
+              eq_refl eq_refl eq_refl eq_refl _ Hd Hl Hbody).
+    split; [reflexivity|]. split; [apply default_agood|]. split; reflexivity.
+Qed.
+
+(* ================= Ctrl-A ================= *)
+Definition ctrla_char (ch : N) : bool := ansi_char ch && negb (ch =? 1).
+Definition ctrla_dom (c : cell) : Prop := ctrla_char (cch c) = true /\ colour_dom c.
+
+(* writer and parser state determined by the colours (f, g) in force *)
+Definition ctrla_ws (f g : N) : ctrla_w := mkCW (cattr f g) (7 <? f) false false.
+Definition ctrla_pstate (f : N) : ctrla_ps := mkCP false (7 <? f) false.
+Definition ctrla_R (ws : ctrla_w) (ps : ctrla_ps) (a : TextAttribute) : Prop :=
+  exists f g, f < 16 /\ g < 8 /\ a = cattr f g /\ ps = ctrla_pstate f /\
+    foreground_color (cw_last ws) = f /\ background_color (cw_last ws) = g /\ attr (cw_last ws) = 0 /\
+    cw_bold ws = (7 <? f) /\ cw_high ws = false /\ cw_blink ws = false.
+
+Definition attr_same (a b : TextAttribute) : bool :=
+  (font_page a =? font_page b) && (foreground_color a =? foreground_color b) &&
+  (background_color a =? background_color b) && (attr a =? attr b).
+Lemma attr_same_eq a b : attr_same a b = true -> a = b.
+Proof.
+  destruct a, b. unfold attr_same. cbn. intro H.
+  apply andb_prop in H as (H & E4). apply andb_prop in H as (H & E3). apply andb_prop in H as (E1 & E2).
+  apply N.eqb_eq in E1, E2, E3, E4. subst. reflexivity.
+Qed.
+
+(* every (previous colours, next colours) pair: 16 x 8 x 16 x 8 *)
+Definition ctrla_check (f g cf cb : N) : bool :=
+  match arun ctrla_ps ctrla_astep (ctrla_pstate f) (cattr f g) (ctrla_code (ctrla_ws f g) (cattr cf cb)) with
+  | Some (ps', a') => Bool.eqb (cp_ctrl ps') false && Bool.eqb (cp_bold ps') (7 <? cf) && Bool.eqb (cp_high ps') false &&
+                      attr_same a' (cattr cf cb)
+  | None => false
+  end.
+Lemma ctrla_sweep :
+  forallb (fun f => forallb (fun g => forallb (fun cf => forallb (ctrla_check f g cf) (nrange 8)) (nrange 16)) (nrange 8)) (nrange 16) = true.
+Proof. vm_compute. reflexivity. Qed.
+
+Lemma ctrla_code_ok f g cf cb : f < 16 -> g < 8 -> cf < 16 -> cb < 8 ->
+  arun ctrla_ps ctrla_astep (ctrla_pstate f) (cattr f g) (ctrla_code (ctrla_ws f g) (cattr cf cb)) =
+  Some (ctrla_pstate cf, cattr cf cb).
+Proof.
+  intros H1 H2 H3 H4. pose proof (nrange_forallb4 _ _ _ _ _ ctrla_sweep f g cf cb H1 H2 H3 H4) as H.
+  unfold ctrla_check in H. destruct (arun _ _ _ _ _) as [[ps' a']|]; [|discriminate].
+  apply andb_prop in H as (H & E4). apply andb_prop in H as (H & E3). apply andb_prop in H as (E1 & E2).
+  apply eqb_prop in E1, E2, E3. apply attr_same_eq in E4. subst a'. destruct ps'. cbn in *. subst. reflexivity.
+Qed.
+
+Lemma ctrla_code_canon ws a f g :
+  foreground_color (cw_last ws) = f -> background_color (cw_last ws) = g ->
+  cw_bold ws = (7 <? f) -> cw_high ws = false -> cw_blink ws = false -> attr a = 0 ->
+  ctrla_code ws a = ctrla_code (ctrla_ws f g) (cattr (foreground_color a) (background_color a)).
+Proof.
+  intros E1 E2 E3 E4 E5 E6. unfold ctrla_code, is_blinking, ctrla_ws. cbn [cw_last cw_bold cw_high cw_blink cattr foreground_color background_color attr].
+  rewrite E1, E2, E3, E4, E5, E6. reflexivity.
+Qed.
+
+Lemma ctrla_char_step w p ch b : ctrla_char ch = true ->
+  step ctrla_ps ctrla_astep (ctrla_bstep w) (mkCP false b false) p ch =
+  Some (mkCP false b false, print_char w p (mkCell ch (pattr p))).
+Proof.
+  intro H. apply andb_prop in H as (Ha & Hn). unfold step, ctrla_astep, ctrla_bstep. cbn [cp_ctrl]. unfold CTRL_A.
+  destruct (ch =? 1); [discriminate|]. rewrite (ansi_print_char w p ch Ha). reflexivity.
+Qed.
+
+Lemma ctrla_cell_sync w : cell_sync w ctrla_ps ctrla_w ctrla_astep (ctrla_bstep w) ctrla_R colour_rel ctrla_emit ctrla_dom.
+Proof.
+  intros ws ps p c bs ws' (f & g & Hf & Hg & Hattr & Hps & L1 & L2 & L3 & L4 & L5 & L6) (Hch & Cf & Cg & Ca) Hem. subst ps.
+  assert (Hansi : ansi_char (cch c) = true) by (apply andb_prop in Hch as (A & _); exact A).
+  unfold ctrla_emit in Hem. rewrite (out_ch_ansi c Hansi) in Hem.
+  destruct (negb (attr_eqb (cat c) (cw_last ws))) eqn:Ec.
+  - pose proof (f_equal (fun o => match o with Some (x, _) => x | None => [] end) Hem) as Hbs.
+    pose proof (f_equal (fun o => match o with Some (_, y) => y | None => ws end) Hem) as Hws.
+    cbv beta iota in Hbs, Hws. subst bs ws'. clear Hem.
+    rewrite (ctrla_code_canon ws (cat c) f g L1 L2 L4 L5 L6 Ca).
+    exists (ctrla_pstate (foreground_color (cat c))), (mkCell (cch c) (cattr (foreground_color (cat c)) (background_color (cat c)))).
+    split; [|split; [|split]].
+    + assert (Hrun := ctrla_code_ok f g _ _ Hf Hg Cf Cg). rewrite <- Hattr in Hrun.
+      rewrite (run_code_then ctrla_ps ctrla_astep (ctrla_bstep w) _ (cch c) _ p _ _ _ Hrun (ctrla_char_step w _ (cch c) _ Hch)).
+      reflexivity.
+    + exists (foreground_color (cat c)), (background_color (cat c)). cbn [cat cw_last cw_bold cw_high cw_blink].
+      repeat split; try assumption; try reflexivity.
+      * apply N.ltb_ge. lia.
+      * unfold is_blinking, has_flag. rewrite Ca. reflexivity.
+    + repeat split.
+    + apply agood_cell, cattr_agood.
+  - apply negb_false_iff in Ec. destruct (attr_eqb_true _ _ Ec) as (A1 & A2 & A3).
+    inversion Hem; subst bs ws'; clear Hem.
+    exists (ctrla_pstate f), (mkCell (cch c) (pattr p)). split; [|split; [|split]].
+    + cbn [run app]. unfold ctrla_pstate. rewrite (ctrla_char_step w p (cch c) _ Hch). unfold put. cbn [cat]. rewrite set_attr_same. reflexivity.
+    + exists f, g. cbn [cat]. repeat split; assumption.
+    + split; [reflexivity|]. cbn [cat]. rewrite Hattr. cbn. split; congruence.
+    + apply agood_cell. rewrite Hattr. apply cattr_agood.
+Qed.
+
+Lemma ctrla_eol_sync w : eol_sync ctrla_ps ctrla_w ctrla_astep (ctrla_bstep w) EOL_CRLF ctrla_R.
+Proof. intros ws ps p (f & g & _ & _ & _ & Hps & _). subst ps. reflexivity. Qed.
+
+Lemma ctrla_total ws c : ctrla_dom c -> exists r, ctrla_emit ws c = Some r.
+Proof. intros _. unfold ctrla_emit. destruct (negb (attr_eqb (cat c) (cw_last ws))); eauto. Qed.
+
+Theorem ctrla_roundtrip_proof : forall pr b,
+  dom_rows 80 ctrla_dom b -> nonempty_last 80 b ->
+  exists bytes, write CTRLA pr 80 b = WOk bytes /\
+    (sauce_gate bytes = false -> bom_gate bytes = false ->
+     exists q, load CTRLA bytes = Loaded q /\ picture 80 colour_rel b q).
+Proof.
+  intros pr b Hd Hl.
+  destruct (rows_loop_total _ (cellwise _ ctrla_emit 80) EOL_CRLF 80 _
+              (cellwise_total _ ctrla_emit ctrla_dom 80 ctrla_total) b (length b) (mkCW default_attribute false false false) 0%nat Hd) as (body & Hbody).
+  exists (prep_bytes CTRLA pr ++ body). split.
+  - unfold write, write_body. rewrite Hbody. reflexivity.
+  - intros Hs Hb. unfold load. rewrite Hs, Hb.
+    unfold parse. change (load_width CTRLA) with 80%nat.
+    refine (assemble 80 ltac:(lia) _ _ ctrla_astep (ctrla_bstep 80) (cellwise _ ctrla_emit 80) EOL_CRLF ctrla_R _ colour_rel
+              (cellwise_row_sync 80 _ _ ctrla_astep (ctrla_bstep 80) ctrla_R colour_rel ctrla_emit ctrla_dom (ctrla_cell_sync 80))
+              (ctrla_eol_sync 80) (mkCW default_attribute false false false) (mkCP false false false) (page0 CTRLA)
+              (prep_bytes CTRLA pr) (mkCP false false false) (page0 CTRLA) b body
+              _ eq_refl eq_refl eq_refl _ Hd Hl Hbody).
+    + destruct pr; reflexivity.
+    + exists 7, 0. repeat split; reflexivity.
 Qed.
